@@ -46,6 +46,7 @@ type Loc struct {
 
 // Emitter collects the declarations and the linear script of one function's VC.
 type Emitter struct {
+	defs     map[string]string // defined name -> term
 	pre      []string
 	declared map[string]bool
 	lines    []string
@@ -132,6 +133,10 @@ func (e *Emitter) define(prefix, sort, term string) string {
 		return term
 	}
 	n := e.fresh(prefix)
+	if e.defs == nil {
+		e.defs = map[string]string{}
+	}
+	e.defs[n] = term
 	if strings.Contains(term, "(ite ") {
 		// an opaque constant: names whose definition contains ite must not be macro-expanded
 		// into quantifier patterns (z3 rejects 'if' in patterns)
